@@ -27,6 +27,26 @@ def owned_record_locals(fn):
     return out
 
 
+def _equal_found(fc, new, vec):
+    """edge fact: an element of the iterated vector compared equal to `new` (`e == &new` true)"""
+    if fc[0] == "call" and (fc[1].endswith("PartialEq::eq") or fc[1].endswith(">::eq")) and fc[3] is True and len(fc[2]) == 2:
+        a, b = fc[2]
+    elif fc[0] == "cmp" and fc[1] == "Eq":
+        a, b = fc[2], fc[3]
+    else:
+        return False
+    for x, y in ((a, b), (b, a)):
+        src = A.iter_elem_source(x)
+        if src is None:
+            continue
+        if new is None:
+            return True
+        if A.same_value(y, new) or A.path_str(y) == A.path_str(new) and A.path_str(y) is not None:
+            if vec is None or A.same_value(src, vec) or A.path_str(src) == A.path_str(vec):
+                return True
+    return False
+
+
 def run(ctx):
     prog = ctx.prog
     ctx.rule("C12.1", "merge_zrs_helper: a record is pushed only if no equal record is present; a missing type takes the whole vector")
@@ -46,23 +66,11 @@ def run(ctx):
     for b, t in pushes:
         e = mr.call_expr(t, b)
         new = e[2][1]
-        def pred(fc, new=new):
-            if not (fc[0] == "call" and fc[1].endswith("::any") and fc[3] is False):
-                return False
-            clo = A.peel(fc[2][1])
-            if clo[0] != "closure" or not A.same(fc[2][0], e[2][0]) and not _iter_of(fc[2][0], e[2][0]):
-                return False
-            cf = prog.fn(clo[1])
-            cr = A.Resolver(cf)
-            rets = [A.peel(x) for _, x in A.return_exprs(cf, cr)]
-            if len(rets) != 1 or rets[0][0] != "call" or not (rets[0][4] or "").endswith("PartialEq::eq"):
-                return False
-            a, b_ = rets[0][2]
-            sides = {A.path_str(a), A.path_str(b_)}
-            # one side the element, the other the captured `new`
-            return "param2" in sides and any(s and s.startswith("^") for s in sides)
-        ok, _ = mc.guarded(b, pred)
-        ctx.check(ok, "C12.1", "merge_zrs_helper:dedupe", "push(new) only if !my_zrs.iter().any(|e| e == &new)",
+        vec = e[2][0]
+        dup_edges = mc.edges_where(lambda fc, new=new, vec=vec: _equal_found(fc, new, vec))
+        hdr = A.innermost_loop_header(m, b)
+        ok = A.never_after(m, dup_edges, b, [hdr] if hdr is not None else [])
+        ctx.check(ok, "C12.1", "merge_zrs_helper:dedupe", "push(new) is not reached once an element of the vector equal to `new` has been found",
                   "records are pushed without the duplicate test", m.loc(b))
     ins = A.call_blocks(m, A.name_endswith("HashMap::<K, V, S, A>::insert"))
     ctx.floor("C12.1", "insert of a whole record set", len(ins), 1, exact=True)
@@ -84,7 +92,7 @@ def run(ctx):
             drops = A.unconsumed_drops(f, l) or []
             bad = []
             for d in drops:
-                dup, _ = fc_.guarded(d, lambda fc: fc[0] == "call" and fc[1].endswith("::any") and fc[3] is True)
+                dup, _ = fc_.guarded(d, lambda fc: (fc[0] == "call" and fc[1].endswith("::any") and fc[3] is True) or _equal_found(fc, None, None))
                 if not dup:
                     bad.append(d)
             nm = f.names.get(l, "_%d" % l)
